@@ -5,6 +5,8 @@ fwd_position/sensor_pos/.../solve/sensor_acc sequence) versus mj_forward at the 
 (own scale, own noise floor). Sensors that depend on the constraint solver are judged only under the gating rule.
 """
 
+import copy
+
 import mujoco
 import numpy as np
 
@@ -396,7 +398,7 @@ def match_rows(ref_rows, got_rows):
   return np.array(out)
 
 
-def judge_sensor(rec, mjm, i, got, ref, noise, coarse, gated, struct_ok, constrained, sib, mjd, ctx):
+def judge_sensor(rec, mjm, i, got, ref, noise, coarse, gated, struct_ok, constrained, sib, mjd, raw, ctx):
   """Verdict for sensor i. got/ref/noise/coarse: full sensordata-sized arrays."""
   t = int(mjm.sensor_type[i])
   name = ST.get(t, str(t))
@@ -427,7 +429,7 @@ def judge_sensor(rec, mjm, i, got, ref, noise, coarse, gated, struct_ok, constra
     allow = A_VEL
   else:
     allow = A_ACC_FREE
-  sc = max(1.0, float(np.abs(r).max())) if n else 1.0
+  sc = max(1.0, float(np.abs(r).max()), float(np.abs(raw[a : a + n]).max())) if n else 1.0  # raw: value before cutoff
   if constrained and t in SOLVER_DEP and t != int(S.mjSENS_TACTILE):  # tactile is geometric (penetration), no force scale
     # solver precision is relative to the largest constraint force / acceleration of the world, not to this sensor's value
     if t in STATIC_SKEW:
@@ -689,13 +691,22 @@ def run_case(case):
         rec.viol("sensor:disabled-but-written", f"SENSOR disabled, sensordata written {ctx}")
       continue
     coarse = coarse_spread(mjm, st, case["seed"] + w) if any(int(t) in DISCONT for t in mjm.sensor_type) else np.zeros(mjm.nsensordata)
+    raw = ref["sensordata"]
+    if np.any(mjm.sensor_cutoff > 0):
+      # magnitudes before cutoff (a saturated component says nothing about the size of the terms behind the others)
+      m_nocut = copy.copy(mjm)
+      m_nocut.sensor_cutoff[:] = 0
+      d_nocut = mujoco.MjData(m_nocut)
+      mw.apply_state_mj(m_nocut, d_nocut, st)
+      mujoco.mj_forward(m_nocut, d_nocut)
+      raw = np.array(d_nocut.sensordata)
     sibs = {}
     for i in range(mjm.nsensor):
       if names[i].endswith("_all"):
         sibs[names[i][:-4]] = sibling_info(mjm, i, ref["sensordata"])
     for i in range(mjm.nsensor):
       t = int(mjm.sensor_type[i])
-      res = judge_sensor(rec, mjm, i, got_sd[w], ref["sensordata"], noise["sensordata"], coarse, gated, struct_ok, constrained, sibs.get(names[i]), mjd, ctx + f" sensor {i} ({names[i]})")
+      res = judge_sensor(rec, mjm, i, got_sd[w], ref["sensordata"], noise["sensordata"], coarse, gated, struct_ok, constrained, sibs.get(names[i]), mjd, raw, ctx + f" sensor {i} ({names[i]})")
       a, n = int(mjm.sensor_adr[i]), int(mjm.sensor_dim[i])
       r = ref["sensordata"][a : a + n]
       if res == "ok":
